@@ -106,7 +106,7 @@ fn iso_checks<S: Suite>(ctx: &Ctx, pts: &[Pt<S::K>], lams: &[S::K], bound: usize
         },
     );
     // homomorphism on all pairs of a sub-alphabet (sum on the isogenous curve by the reference law with a != 0)
-    let m = ctx.tier.pick(16usize, 32).min(pts.len());
+    let m = ctx.tier.pick(16usize, 64).min(pts.len());
     let mut subp: Vec<Pt<S::K>> = pts.iter().take(m - 2).cloned().collect();
     subp.push(ciso.neg(&pts[0]));
     subp.push(Pt::Inf);
@@ -197,11 +197,11 @@ pub fn run(ctx: &Ctx) -> (&'static str, &'static str) {
         l1.push(Q1::new(alpha::rand_below(&mut rng, q)));
         l2.push(Q2::new(vec![Q1::new(alpha::rand_below(&mut rng, q)), Q1::new(alpha::rand_below(&mut rng, q))]));
     }
-    let p1 = iso_points::<RG1>(ctx, ctx.tier.pick(320, 500), &|k| Q1::from_u64(k), &|r| Q1::new(alpha::rand_below(r, q)));
+    let p1 = iso_points::<RG1>(ctx, ctx.tier.pick(320, 2000), &|k| Q1::from_u64(k), &|r| Q1::new(alpha::rand_below(r, q)));
     let k1 = g1_kernel_points(ctx);
     ctx.extra("G1 rational kernel points found", json!(k1.len()));
     iso_checks::<RG1>(ctx, &p1, &l1, 306, &k1, [12, 11, 16, 16]);
-    let p2 = iso_points::<RG2>(ctx, ctx.tier.pick(80, 240), &|k| q2u(k, 1), &|r| Q2::new(vec![Q1::new(alpha::rand_below(r, q)), Q1::new(alpha::rand_below(r, q))]));
+    let p2 = iso_points::<RG2>(ctx, ctx.tier.pick(80, 1000), &|k| q2u(k, 1), &|r| Q2::new(vec![Q1::new(alpha::rand_below(r, q)), Q1::new(alpha::rand_below(r, q))]));
     ctx.note("G2: #E2'(Fq2) = h2*r is not divisible by 3, so the 3-isogeny has no rational kernel points; only identity encodings are checked there");
     iso_checks::<RG2>(ctx, &p2, &l2, 66, &[], [4, 3, 4, 4]);
     ctx.assume("degree bound: Y^2 - X^3 - b Z^6 composed with the table-defined map has pole order <= 306 (G1) / 66 (G2) at infinity on E'; vanishing on more distinct points proves the image lies on E for every point, and a morphism fixing O is a homomorphism");
